@@ -64,7 +64,11 @@ def timeout_with_mapper_(
                 my_id = _id[0]
 
                 def timer_wins():
-                    return _id[0] == my_id
+                    nonlocal switched
+                    if switched or _id[0] != my_id:
+                        return False
+                    switched = True
+                    return True
 
                 d = SingleAssignmentDisposable()
                 timer.disposable = d
